@@ -17,6 +17,7 @@ var fnExecute = [3]string{"pkg/vm", "VM", "execute"}
 
 func ruleLimitGuards(c *Ctx) {
 	allocAfterBound(c)
+	bufferByteRange(c)
 	runGates(c, []GateSpec{
 		{ID: "NEWBUFFER.make", Fn: fnExecute, Arm: "NEWBUFFER", Target: "call:builtin.make",
 			Guards: []Guard{{ID: "max-size", Doc: "buffer size is compared with stackitem.MaxSize before allocation", Alts: [][]string{{"pkg/vm/stackitem.MaxSize"}}}}},
